@@ -5,6 +5,7 @@ package props
 import (
 	"fmt"
 	"math/big"
+	"sort"
 	"testing"
 
 	tx "github.com/MinterTeam/minter-go-node/coreV2/transaction"
@@ -210,6 +211,49 @@ func TestC04(t *testing.T) {
 				violation(t, "panic", h.R, "%s", h.R.PanicReport())
 			}
 		}
+		// A chain started from the exported state continues the same nonce sequence: every sender's
+		// nonce survives the export/import, and byte strings accepted on the original chain are
+		// refused there as well (also for accounts that hold nothing at the time of the export).
+		regenesis := 0
+		if !h.R.Halted && sim.U(t, "regenesis", 3) == 0 {
+			e := exportAsGenesis(h.N)
+			w2 := *h.W
+			w2.Genesis = e
+			w2.InitialHeight = int64(h.N.LastHeight) + 1
+			n2 := sim.NewNode(&w2)
+			if len(n2.Panics) > 0 {
+				violation(t, "import-panic", h.R, "InitChain with the export of height %d panicked: %s", h.N.LastHeight, n2.Panics[0].Value)
+			}
+			req := sim.BlockReq{Height: n2.LastHeight + 1, Time: h.N.Time.Add(5e9), Votes: n2.AllSigned()}
+			if !n2.WouldHalt(req) && !n2.BeginBlock(req) {
+				addrs := make([]types.Address, 0, len(model))
+				for a := range model {
+					addrs = append(addrs, a)
+				}
+				sort.Slice(addrs, func(i, j int) bool { return addrs[i].Compare(addrs[j]) < 0 })
+				for _, a := range addrs {
+					want := model[a]
+					if got := n2.App.CurrentState().Accounts().GetNonce(a); got != want {
+						violation(t, "nonce-lost-in-regenesis", h.R, "account %s has nonce %d on the original chain and %d on a chain started from its export at height %d", a.String(), want, got, h.N.LastHeight)
+					}
+				}
+				raws := make([]string, 0, len(accepted))
+				for raw := range accepted {
+					raws = append(raws, raw)
+				}
+				sort.Strings(raws)
+				for k, raw := range raws {
+					if k >= 6 {
+						break
+					}
+					regenesis++
+					if resp, ok := n2.DeliverTx([]byte(raw)); ok && resp.Code == 0 {
+						violation(t, "accepted-twice", h.R, "bytes accepted on the original chain were accepted again on a chain started from its export: %x", raw)
+					}
+				}
+			}
+		}
+		sim.S.LabelN("C04/redeliveries-after-regenesis", regenesis)
 		sim.S.LabelN("C04/burner-accounts-drained-to-zero", drained)
 		sim.S.LabelN("C04/burner-replays-after-refund", burnerReplays)
 		sim.S.LabelN("C04/replays-of-accepted", replays)
